@@ -11,6 +11,7 @@ import (
 	"strings"
 
 	"github.com/junegunn/fzf/src/zsim"
+	"time"
 )
 
 func pick(r *zsim.Rng, xs ...string) string { return xs[r.Intn(len(xs))] }
@@ -549,6 +550,13 @@ func genC14Plan(r *zsim.Rng) *sysPlan {
 		end = sysEvent{Kind: "sig", Sig: pick(r, "INT", "INT", "TERM"), DelayMs: 2500 + genDelay(r)}
 	}
 	p.StdoutClosed = r.Chance(1, 10)
+	if r.Chance(1, 15) {
+		// Targeted mode: a command started in the foreground runs for most of a minute; SIGTERM / SIGHUP
+		// arrives in the middle of it
+		p.Procs = []procSpec{{FinalMs: r.Range(30000, 50000), Text: "out\n"}}
+		p.Events = append(p.Events, sysEvent{Kind: "settle"}, sysEvent{Kind: "keys", Keys: pick(r, "alt-a", "alt-b", "alt-b")})
+		end = sysEvent{Kind: "sig", Sig: pick(r, "TERM", "HUP"), DelayMs: r.Range(300, 3000)}
+	}
 	p.Events = append(p.Events, end)
 	return p
 }
@@ -617,6 +625,16 @@ func runC14(c *runCtx) {
 		}
 		for _, a := range r.becameLeft {
 			c.violate("exit.unclean", "at the instant fzf replaced itself with %q: child process %s still running and never killed", r.became, a)
+		}
+	}
+	if r.sigTermAt > 0 && len(c.viol) == 0 {
+		c.count("probe.sigterm_during_command", 1)
+		if !r.done || r.doneAt-r.sigTermAt > 10*time.Second {
+			took := "never"
+			if r.done {
+				took = (r.doneAt - r.sigTermAt).String()
+			}
+			c.violate("sys.signal_ignored", "SIGTERM/SIGHUP arrived while the command %q was running in the foreground; fzf ended %s later (it is to stop the command and leave, not to wait for it)", r.sigTermCmd, took)
 		}
 	}
 	for _, a := range r.pipeLeft {
